@@ -1,0 +1,11 @@
+//go:build verif
+// +build verif
+
+package capnp
+
+// VerifPogsListInfo is a read-only view of a list pointer's element layout for the
+// verification harness (property C19): element data size in bytes, element pointer
+// count, whether it is a bit list, whether it is a composite list.
+func VerifPogsListInfo(l List) (dataSize uint32, ptrCount uint16, bit bool, composite bool) {
+	return uint32(l.size.DataSize), l.size.PointerCount, l.flags&isBitList != 0, l.flags&isCompositeList != 0
+}
